@@ -21,8 +21,9 @@ class Ob:
     """one obligation: a harness function explored over all paths within its stated bound"""
 
     def __init__(self, name, fn, bound, params=None, expect=(), rlimit=30_000_000, max_paths=200000,
-                 max_decisions=3000, deadline_s=600, max_violations=1, weight=1, cap=None):
+                 max_decisions=3000, deadline_s=600, max_violations=1, weight=1, cap=None, collision_free=False):
         self.cap = cap
+        self.collision_free = collision_free
         self.name = name
         self.fn = fn
         self.bound = bound
@@ -75,7 +76,7 @@ def _worker(args):
         ob = obs[obname]
         known = {k["class"]: k for k in known_active if k.get("obligation") in (obname, None) or obname.startswith(k.get("obligation", "\0"))}
         ex = core.Explorer(rlimit=ob.rlimit, max_paths=ob.max_paths, max_decisions=ob.max_decisions,
-                           deadline_s=ob.deadline_s, max_violations=ob.max_violations, known=known, seed=seed, cap=ob.cap)
+                           deadline_s=ob.deadline_s, max_violations=ob.max_violations, known=known, seed=seed, cap=ob.cap, collision_free=ob.collision_free)
         params = ob.params
 
         count = [0]
@@ -97,7 +98,7 @@ def _worker(args):
             if ob.cap is not None and "WidthExceeded" in str(e):
                 # the code needs the true value of something tracked modulo 2**cap: redo with exact integers
                 ex = core.Explorer(rlimit=ob.rlimit, max_paths=ob.max_paths, max_decisions=ob.max_decisions,
-                                   deadline_s=ob.deadline_s, max_violations=ob.max_violations, known=known, seed=seed, cap=None)
+                                   deadline_s=ob.deadline_s, max_violations=ob.max_violations, known=known, seed=seed, cap=None, collision_free=ob.collision_free)
                 ex.stats.notes.append("width cap %d exceeded; re-run with exact integers" % ob.cap)
                 ex.run(fn)
             else:
@@ -199,6 +200,7 @@ def run_property(pid, tier="quick", seed=0, jobs=None, only=None, verbose=True):
                 if verbose and not r.get("ok"):
                     print("  [engine] %s: %s" % (r["name"], r.get("error")), flush=True)
 
+    t_pool = time.time() - t0
     # 3. triage
     violations = []      # confirmed, not known
     replay_queue = []
@@ -273,6 +275,8 @@ def run_property(pid, tier="quick", seed=0, jobs=None, only=None, verbose=True):
         say("  obligation=%s check=%s" % (name, label))
 
     wall = time.time() - t0
+    if verbose:
+        print("  [timing] discharge %.1fs, replay+triage %.1fs" % (t_pool, wall - t_pool), flush=True)
     if not samples:
         samples = [dict(obligation=o.name, bound=o.bound) for o in obs[:3]]
     evidence = dict(
